@@ -114,7 +114,14 @@ fn check_expression(src: &str, st: &mut Stats) {
             return;
         },
     }
-    let direct = build_operator_tree::<DefaultNumericTypes>(src);
+    let direct = match guarded(|| build_operator_tree::<DefaultNumericTypes>(src)) {
+        Ok(d) => d,
+        Err(_) => {
+            // precompilation itself panics on this source: nothing to compare with (C01 reports it)
+            st.count("a/skipped-precompilation-panics");
+            return;
+        },
+    };
     let via = match guarded(|| ron::de::from_str::<Node<DefaultNumericTypes>>(&encoded)) {
         Ok(v) => v,
         Err(_) => {
